@@ -9,6 +9,7 @@ Cases == ndJsonDeserialize(IOEnv.RECS)
 Verdict(c) == [id |-> c.id,
                layout |-> LayoutVerdict(c.prog, c.hdr, c.img),
                listing |-> IF c.haslst THEN ListingVerdict(c.prog, c.img, c.lst) ELSE "",
+               decode |-> IF c.haslst THEN ListingDecodeVerdict(c.lprog, c.img, c.lst) ELSE "",
                n |-> Len(c.prog)]
 Init == done = FALSE
 Next == ~done /\ done' = TRUE /\ ndJsonSerialize(IOEnv.OUT, [i \in 1..Len(Cases) |-> Verdict(Cases[i])])
